@@ -410,8 +410,8 @@ def plan(tier, seed):
         specs += [{"kind": "cli", "examples": 40, "seed": seed * 1000 + 100 + k} for k in range(4)]
     else:
         specs = [{"kind": "files", "files": [f]} for f in corpus.all_files()]
-        specs += [{"kind": "synthetic", "examples": 1500, "seed": seed * 1000 + k} for k in range(16)]
-        specs += [{"kind": "cli", "examples": 250, "seed": seed * 1000 + 100 + k} for k in range(8)]
+        specs += [{"kind": "synthetic", "examples": 4000, "seed": seed * 1000 + k} for k in range(16)]
+        specs += [{"kind": "cli", "examples": 800, "seed": seed * 1000 + 100 + k} for k in range(8)]
     return specs
 
 
